@@ -37,14 +37,15 @@ Definition ase_fixed (dri cc ss srate : N) : list N :=
   repeat 0 6 ++ be2 dri ++ repeat 0 8 ++ be2 cc ++ be2 ss ++ repeat 0 4 ++ be4 ((srate mod 65536) * 65536).
 
 (* ------------------------------------------------------------------ dref / trep: the stsd layout *)
-Definition cnt_sr (fin : N -> N -> list tree -> res stsd) (ld : leafdec) (fuel : nat) (h : hdr) (startPos : N) (s : sst) : res stsd * sst :=
+(* acc: the decoder ends `return b, sr.AccError()` (dref; a child such as a truncated mdat can leave the error set) or `return &b, nil` (trep) *)
+Definition cnt_sr (fin : N -> N -> list tree -> res stsd) (acc : bool) (ld : leafdec) (fuel : nat) (h : hdr) (startPos : N) (s : sst) : res stsd * sst :=
   match read_fixed 4 (sr s) with
   | Ok (vf, r1) =>
       match read_fixed 4 r1 with
       | Ok (w2, r2) =>
           match children_sr ld fuel (addu64 startPos 16) (addu64 startPos 16) (addu64 startPos (hsize h)) (rpos r2) []
                             (mkS r2 (scost s)) with
-          | (Ok kids, s2) => (fin vf w2 kids, s2)
+          | (Ok kids, s2) => if acc && rerr (sr s2) then (Err, s2) else (fin vf w2 kids, s2)
           | (Err, s2) => (Err, s2) | (Panic, s2) => (Panic, s2) | (OutOfFuel, s2) => (OutOfFuel, s2)
           end
       | Err => (Err, s) | Panic => (Panic, s) | OutOfFuel => (OutOfFuel, s)
@@ -70,13 +71,13 @@ Definition cnt_r (fin : N -> N -> list tree -> res stsd) (ld : leafdec) (fuel : 
 Definition dref_finish (vf cnt : N) (kids : list tree) : res stsd :=
   if negb (lenN kids mod 4294967296 =? cnt) then Err
   else Ok (mkStsd (vf / 16777216) (N.land vf flags_mask) (lenN kids mod 4294967296) kids).
-Definition dref_sr := cnt_sr dref_finish.
+Definition dref_sr := cnt_sr dref_finish true.
 Definition dref_r := cnt_r dref_finish.
 
 (* DecodeTrepSR: no test; the second word is the TrackID *)
 Definition trep_finish (vf tid : N) (kids : list tree) : res stsd :=
   Ok (mkStsd (vf / 16777216) (N.land vf flags_mask) tid kids).
-Definition trep_sr := cnt_sr trep_finish.
+Definition trep_sr := cnt_sr trep_finish false.
 (* DecodeTrep: readBoxBody, then DecodeTrepSR on bits.NewFixedSliceReader(data) *)
 Definition trep_r (ld : leafdec) (fuel : nat) (h : hdr) (startPos : N) (s : ist) : res stsd * ist :=
   let '(rb, s1) := read_box_body h s in
